@@ -7,7 +7,7 @@ CONSTANTS
   Home <- THome1
   Progs <- TProgs
   CtxOf <- TCtx
-  Deviations = {}
+  Deviations = {"NoFlush"}
 CONSTRAINT Mark
 POSTCONDITION Accepted
 CHECK_DEADLOCK FALSE
